@@ -14,6 +14,7 @@ What is proved here, over the statement-by-statement models of `Format` (Model.l
     (`fmt_preserves_tokens_partial`, `fmt_idempotent_partial`).
 -/
 import CaddyModel.Gen.FmtCmd
+import CaddyModel.C17.Glue
 import CaddyModel.C17.Lemmas
 import CaddyModel.C17.LexLemmas
 import CaddyModel.C17.Witness
@@ -248,5 +249,15 @@ theorem cmdFmt_data_flow_matches_source :
       ["v0,err = io.ReadAll(os.Stdin)", "fmt.Print(string(caddyfile.Format(v0)))",
        "v0,err = os.ReadFile(configFile)", "v1 = caddyfile.Format(v0)",
        "os.WriteFile(configFile,v1,0o600)", "fmt.Print(string(v1))"] := by decide
+
+
+/-- **source facts for the glue of Glue.lean** (regenerated on every run): `allTokens` lexes the
+    substituted text; `Adapt` hands its untouched parameter to `Parse` and to the lint; the lint
+    normalises CR LF on a copy (`v1`), formats that copy and compares the two -/
+theorem fmt_glue_matches_source :
+    Gen.allTokensReturns = ["Tokenize(replaceEnvVars(input),filename)"] ∧
+    Gen.adaptBodyUses = ["Parse(filename,body)", "FormattingDifference(filename,body)"] ∧
+    Gen.formattingDifferenceDataFlow =
+      ["v1 = bytes.Replace(body,?(\"\\r\\n\"),?(\"\\n\"),-1)", "v0 = Format(v1)", "bytes.Equal(v0,v1)"] := by decide
 
 end CaddyModel.C17
